@@ -312,6 +312,7 @@ func runHistory1(pieces []piece, deadline time.Duration) (sig, detail, script st
 		}
 	}()
 	var sb strings.Builder
+	var hostedLists map[*gen.List]bool
 	d20Seen := false
 	for pi, pc := range pieces {
 		st.pieces++
@@ -343,7 +344,16 @@ func runHistory1(pieces []piece, deadline time.Duration) (sig, detail, script st
 			hosted := false
 			if o.Err == "" && o.Out == "" {
 				if mv, found := in.GlobalValue(vd.Name); found {
-					if gv, conv := hostValue(mv); conv {
+					// two names bound to one list in the model must not become two separate host objects
+					aliased := false
+					if l, isList := mv.(*gen.List); isList {
+						if hostedLists == nil {
+							hostedLists = map[*gen.List]bool{}
+						}
+						aliased = hostedLists[l]
+						hostedLists[l] = true
+					}
+					if gv, conv := hostValue(mv); conv && !aliased {
 						sess.host = append(sess.host, hostGlobal{vd.Name, gv})
 						st.hosted++
 						hosted = true
